@@ -69,9 +69,10 @@ VTLoop(aNaf, bNaf, aTab, bTab, i, acc) ==
              t2  == IF bNaf[i] > 0 THEN EAdd(t1, SelectOdd(bTab, bNaf[i]))
                     ELSE IF bNaf[i] < 0 THEN ESub(t1, SelectOdd(bTab, 0 - bNaf[i])) ELSE t1
          IN  VTLoop(aNaf, bNaf, aTab, bTab, i - 1, t2)
-VarTimeDoubleAlg(a, A, b, B, aliased) ==
+\* bTab is the precomputed table of the odd multiples B, 3B, ..., 127B (basepointNafTable, built once)
+VarTimeDoubleAlg(a, A, b, bTab, aliased) ==
     LET AA == IF BUG_ResetBeforeTable /\ aliased THEN Identity ELSE A
-    IN  VTLoop(NafAlg(a, 5, WS, NW), NafAlg(b, 8, WS, NW), TableOdd(AA, 8), TableOdd(B, 64), WS * NW, Identity)
+    IN  VTLoop(NafAlg(a, 5, WS, NW), NafAlg(b, 8, WS, NW), TableOdd(AA, 8), bTab, WS * NW, Identity)
 
 \* ---- MultiScalarMult(v; ks, qs): shared doublings, v is the accumulator ------------------------
 RECURSIVE MSAddAll(_, _, _, _, _)
